@@ -13,6 +13,10 @@ def check(ix, rep):
     from sa.rules import nodename
     nk = nodename.check(ix, rep, 'name-table')
     rep.floor('name obligations (parts of the printed name, skeletons)', nk, 120)
+    # a node constructor does not change the nodes it is given: a sub-specification node is shared by every formula that refers to it
+    from sa.rules import astpure
+    nnc = astpure.check_modules(ix, rep, ('rtamt/syntax/node/',), 'node-ctor')
+    rep.floor('node constructors and accessors checked for stores through parameters', nnc, 60)
     store.check_pastifier_remap(ix, rep)
     # a named sub-formula that is stepped twice in one update no longer has the value of the same formula monitored on its own
     from sa.rules import step
